@@ -52,7 +52,8 @@ def judge(rec, opts):
     except Exception as e:  # noqa: BLE001
         got = {"ok": False, "err": "non-liquid:" + type(e).__name__}
     if rec["ok"]:
-        if not got["ok"] or (got["v"] != want and got["v"] not in alts):
+        if not got["ok"] or (got["v"] != want and got["v"] not in alts) or (isinstance(want, (int, float)) and not isinstance(want, bool)
+                                                                              and type(got["v"]) is not type(want)):
             out.append((f"filter-result:{name}:{shape}", {"want": want, "got": got, "src": src, "data": repr(data)}))
     elif got["ok"] or (rec["err"] != got["err"] and not got["err"].startswith("Liquid")):
         out.append((f"filter-error:{name}:{shape}", {"want": rec["err"], "got": got, "src": src, "data": repr(data)}))
